@@ -1577,14 +1577,20 @@ impl TestTextSelection for TextSelectionSet {
             TextSelectionOperator::Equals { negate: false, .. } => {
                 //ALL of the items in this set must match with ANY item in the otherset
                 for item in self.iter() {
-                    if !item.test_set(operator, refset, resource) {
+                    if !refset
+                        .iter()
+                        .any(|refitem| item.test(operator, refitem, resource))
+                    {
                         return false;
                     }
                 }
                 //and the other way round (the number of stored items says nothing: a set may
                 //hold an item twice)
                 for item in refset.iter() {
-                    if !item.test_set(operator, self, resource) {
+                    if !self
+                        .iter()
+                        .any(|selfitem| item.test(operator, selfitem, resource))
+                    {
                         return false;
                     }
                 }
@@ -1874,8 +1880,15 @@ impl TestTextSelection for TextSelection {
         resource: &TextResource,
     ) -> bool {
         match operator {
-            TextSelectionOperator::Equals { negate: false, .. }
-            | TextSelectionOperator::Overlaps {
+            TextSelectionOperator::Equals { negate: false, .. } => {
+                //a selection equals a set when the set holds that selection and nothing else
+                //(a set that merely contains it is not equal to it; that is what InSet tests)
+                !refset.is_empty()
+                    && refset
+                        .iter()
+                        .all(|reftextsel| self.test(operator, reftextsel, resource))
+            }
+            TextSelectionOperator::Overlaps {
                 all: false,
                 negate: false,
             }
